@@ -295,7 +295,9 @@ fn main() {
             "C11" => replay_generic("C11", &args[3], &c11::replay_case),
             "C08" => replay_generic("C08", &args[3], &c11::replay_case_c08),
             "C14" => replay_generic("C14", &args[3], &c14::replay_case),
+            "C15" => replay_generic("C15", &args[3], &c15::replay_case),
             "C16" => replay_generic("C16", &args[3], &c16::replay_case),
+            "C10" => replay_generic("C10", &args[3], &c10::replay_case),
             "C17" => replay_generic("C17", &args[3], &c17::replay_case),
             "C06" | "C07" | "C12" | "C13" | "C19" | "C20" => e2run::replay(&args[2], &args[3]),
             "C18" => replay_generic("C18", &args[3], &c18::replay_case),
